@@ -132,28 +132,37 @@ def natural_scale(results, key):
     return sc
 
 
-def big_basket(rng, wb, system, Ef, omega, tetra_ok=True, kmin=2, kmax=4, tab_mode="grid"):
+def big_basket(rng, wb, system, Ef, omega, tetra_ok=True, kmin=2, kmax=4, tab_mode="grid", options=True):
+    """calculators for metamorphic comparisons.  With options=True the documented grouping options of every calculator are drawn too
+    (degen_thresh; degen_Kramers for an even number of bands): relations such as invariance under the FFT factorisation or under
+    relabelling hold for any grouping of the bands.  The drawn options are left in big_basket.last_options (for witnesses)."""
     c = wb.calculators
+    o = {}
+    if options and rng.random() < 0.5:
+        o["degen_thresh"] = float(10 ** rng.uniform(-6, -2))
+        if system.num_wann % 2 == 0 and rng.random() < 0.4:
+            o["degen_Kramers"] = True
+    big_basket.last_options = dict(o)
     has_AA = system.has_R_mat("AA")
     has_SS = system.has_R_mat("SS")
     ext = dict(kwargs_formula={"external_terms": bool(has_AA)})
     pool = {
-        "CumDOS": lambda t: c.static.CumDOS(Efermi=Ef, tetra=t),
-        "DOS": lambda t: c.static.DOS(Efermi=Ef, tetra=t),
-        "AHC": lambda t: c.static.AHC(Efermi=Ef, tetra=t, **ext),
-        "Ohmic_sea": lambda t: c.static.Ohmic_FermiSea(Efermi=Ef, tetra=t),
-        "Ohmic_surf": lambda t: c.static.Ohmic_FermiSurf(Efermi=Ef, tetra=t),
-        "BerryDipole_sea": lambda t: c.static.BerryDipole_FermiSea(Efermi=Ef, tetra=t, **ext),
-        "BerryDipole_surf": lambda t: c.static.BerryDipole_FermiSurf(Efermi=Ef, tetra=t, **ext),
-        "NLDrude_fder2": lambda t: c.static.NLDrude_Fermider2(Efermi=Ef, tetra=t),
-        "NLDrude_sea": lambda t: c.static.NLDrude_FermiSea(Efermi=Ef, tetra=t),
-        "Hall_classic_surf": lambda t: c.static.Hall_classic_FermiSurf(Efermi=Ef, tetra=t),
-        "JDOS": lambda t: c.dynamic.JDOS(Efermi=Ef[::2], omega=omega, smr_fixed_width=0.2),
-        "OptCond": lambda t: c.dynamic.OpticalConductivity(Efermi=Ef[::2], omega=omega, smr_fixed_width=0.2, kBT=0.02, **ext),
+        "CumDOS": lambda t: c.static.CumDOS(Efermi=Ef, tetra=t, **o),
+        "DOS": lambda t: c.static.DOS(Efermi=Ef, tetra=t, **o),
+        "AHC": lambda t: c.static.AHC(Efermi=Ef, tetra=t, **ext, **o),
+        "Ohmic_sea": lambda t: c.static.Ohmic_FermiSea(Efermi=Ef, tetra=t, **o),
+        "Ohmic_surf": lambda t: c.static.Ohmic_FermiSurf(Efermi=Ef, tetra=t, **o),
+        "BerryDipole_sea": lambda t: c.static.BerryDipole_FermiSea(Efermi=Ef, tetra=t, **ext, **o),
+        "BerryDipole_surf": lambda t: c.static.BerryDipole_FermiSurf(Efermi=Ef, tetra=t, **ext, **o),
+        "NLDrude_fder2": lambda t: c.static.NLDrude_Fermider2(Efermi=Ef, tetra=t, **o),
+        "NLDrude_sea": lambda t: c.static.NLDrude_FermiSea(Efermi=Ef, tetra=t, **o),
+        "Hall_classic_surf": lambda t: c.static.Hall_classic_FermiSurf(Efermi=Ef, tetra=t, **o),
+        "JDOS": lambda t: c.dynamic.JDOS(Efermi=Ef[::2], omega=omega, smr_fixed_width=0.2, **o),
+        "OptCond": lambda t: c.dynamic.OpticalConductivity(Efermi=Ef[::2], omega=omega, smr_fixed_width=0.2, kBT=0.02, **ext, **o),
     }
     if has_SS:
-        pool["Spin"] = lambda t: c.static.Spin(Efermi=Ef, tetra=t)
-        pool["GME_spin_surf"] = lambda t: c.static.GME_spin_FermiSurf(Efermi=Ef, tetra=t)
+        pool["Spin"] = lambda t: c.static.Spin(Efermi=Ef, tetra=t, **o)
+        pool["GME_spin_surf"] = lambda t: c.static.GME_spin_FermiSurf(Efermi=Ef, tetra=t, **o)
     names = sorted(pool)
     k = int(rng.integers(kmin, kmax + 1))
     chosen = [names[i] for i in sorted(rng.choice(len(names), size=min(k, len(names)), replace=False))]
@@ -161,8 +170,8 @@ def big_basket(rng, wb, system, Ef, omega, tetra_ok=True, kmin=2, kmax=4, tab_mo
     for nme in chosen:
         t = bool(tetra_ok and rng.random() < 0.3 and nme not in ("JDOS", "OptCond"))
         out[nme + ("_tetra" if t else "")] = pool[nme](t)
-    tabs = {"Energy": c.tabulate.Energy(), "BerryCurvature": c.tabulate.BerryCurvature(kwargs_formula={"external_terms": bool(has_AA)}),
-            "Velocity": c.tabulate.Velocity()}
+    tabs = {"Energy": c.tabulate.Energy(**o), "BerryCurvature": c.tabulate.BerryCurvature(kwargs_formula={"external_terms": bool(has_AA)}, **o),
+            "Velocity": c.tabulate.Velocity(**o)}
     out["tab"] = c.tabulate.TabulatorAll(tabs, mode=tab_mode)
     return out
 
